@@ -389,6 +389,8 @@ def run(chk):
                 'distinct = distinct (options, input) pairs, all non-trivial')
     if THEOREMS:
         chk.require_theorems('Properties.C20', THEOREMS)
+        from harness import c20b_theorems
+        chk.require_theorems('Properties.C20b', c20b_theorems.THEOREMS)    # byte idempotence for --rearrange / --make-variables
     n = 3000 if chk.tier == 'quick' else 40000
     res = common.pmap(one_case, [(i, chk.seed, chk.tier) for i in range(n)], chunk=10)
     for idx, findings in enumerate(res):
